@@ -12,7 +12,7 @@ LEVEL = "other"
 REQUIRE_FEATURES = ["deadlock-detection"]
 QUICK_CONFIGS = [("deadlock-detection",), ("tracing", "deadlock-detection"), ("tracing", "metrics", "test-utils", "deadlock-detection")]
 TRUSTED = ["T6", "T7", "T8"]
-NOT_DECIDED = ["functional correctness of the has_path walk (a loop over a runtime map with a step bound: termination and 'returns true iff the target is reachable') needs deductive or bounded verification - a different family; a structural rule on its loop would freeze the source or reject equivalent rewrites",
+NOT_DECIDED = ["a machine-checked proof that the decided structural facts of the has_path walk (advances from the looked-up successor, >= graph.len() steps, true exactly on successor == target, false only at chain end / exhausted bound) imply 'returns true iff the target is reachable' - the implication is a paper argument over a functional graph (deductive verification would be a different family)",
                "that the remaining asks of a would-be cycle complete (beyond the no-hang rules of C03)"]
 EXPLANATION = (
     "Decided is the wiring without which some cycle is necessarily missed: (1) every hook future of the lifecycle (on_start, handler, "
